@@ -118,3 +118,25 @@ Theorem C17_interleaved_history_ok : forall cA stepsA cB stepsB ops,
   pair_ok cA stepsA cB stepsB ops (fst r) (s_closes (fst (snd r))) (s_closes (snd (snd r))) = true.
 Proof. exact pair_ok_run2. Qed.
 Print Assumptions C17_interleaved_history_ok.
+
+(* ---- reads on the closed wrapper itself: any buffer size, 0 included ---- *)
+
+(* As long as the body the caller holds is the wrapper Close was called on (no probing HasBody has wrapped it again
+   since), every Read - also a zero-length one - returns no data and an error. *)
+Theorem C17_read_on_closed_body_fails : forall c steps ops,
+  closed_reads_fail c false false ops (fst (run c ops (init c steps))) = true.
+Proof. exact closed_reads_fail_run. Qed.
+Print Assumptions C17_read_on_closed_body_fails.
+
+(* the judgements the correspondence run evaluates on the implementation (master statement and strict reading together)
+   hold of every history and of every interleaved history of the model *)
+Theorem C17_history_strict_ok : forall c steps ops,
+  history_strict_ok c steps ops (fst (run c ops (init c steps))) (s_closes (snd (run c ops (init c steps)))) = true.
+Proof. exact history_strict_ok_run. Qed.
+Print Assumptions C17_history_strict_ok.
+
+Theorem C17_interleaved_history_strict_ok : forall cA stepsA cB stepsB ops,
+  let r := run2 cA cB ops (init cA stepsA) (init cB stepsB) in
+  pair_strict_ok cA stepsA cB stepsB ops (fst r) (s_closes (fst (snd r))) (s_closes (snd (snd r))) = true.
+Proof. exact pair_strict_ok_run2. Qed.
+Print Assumptions C17_interleaved_history_strict_ok.
